@@ -161,7 +161,7 @@ KeepAllBut(changed) == TRUE \* documentation only
 
 \* events that carry no state for the property clauses
 Ignored == {"ListEnd", "ReaderClosed", "CleanupBegin", "CleanupEnd", "PProgress", "MProgress", "CloseStart",
-            "Image", "Sched", "Lock", "FReaderClose"}
+            "Image", "Sched", "FReaderClose"}
 TSkip ==
   /\ l <= N /\ Ev.ev \in Ignored /\ l' = l + 1
   /\ UNCHANGED <<vars, viol, tv>>
@@ -223,7 +223,9 @@ TOpenReturn ==
   /\ Judge(IF Ev.err = ""
            THEN (IF RecK = {} THEN {"C03_recovered_not_prefix"} ELSE {})
                 \cup (IF RecK # {} /\ Max(RecK) < AckMax THEN {"C02_acked_lost_by_recovery"} ELSE {})
-           ELSE (IF cnt.snapsDone > 0 /\ ~tv.mem THEN {"C03_open_failed"} ELSE {}))
+           ELSE (IF cnt.snapsDone > 0 /\ ~tv.mem THEN {"C03_open_failed"} ELSE {})
+                \* OpenWriter gave up: it must not keep the directory lock (Lock seen, no Unlock)
+                \cup (IF life.lock THEN {"C14_failed_open_keeps_the_lock", "C11_lock_not_released"} ELSE {}))
 
 \* OpenWriter starts: a new (empty) deletion policy, the initial empty root
 TOpenCall ==
@@ -483,6 +485,13 @@ TCloseCall ==
   /\ viol' = viol
   /\ UNCHANGED <<root, fsnp, fseg, pol, inst, rd, cnt, tv>> /\ UNCHANGED Ghosts /\ UNCHANGED Unused
 
+\* the directory lock of the writer under test (Dir.Lock / Dir.Unlock of the logging wrapper)
+TLock ==
+  /\ Step("Lock")
+  /\ life' = [life EXCEPT !.lock = IF Ev.err = "" THEN TRUE ELSE @]
+  /\ viol' = viol
+  /\ UNCHANGED <<root, fsnp, fseg, pol, inst, rd, cnt, tv>> /\ UNCHANGED Ghosts /\ UNCHANGED Unused
+
 TUnlock ==
   /\ Step("Unlock")
   /\ life' = [life EXCEPT !.lock = FALSE]
@@ -558,7 +567,7 @@ TraceNext ==
   \/ TRootLoad \/ TRootNil \/ TReturn \/ TCallback \/ TPersistBegin \/ TPersistEnd \/ TLoadEnd \/ THandleClose
   \/ TCommit \/ TRemoveEnd \/ TReaderOpen \/ TRootObs \/ TReaderObs \/ TReaderClose \/ TAsyncError \/ TPResult
   \/ TFReaderCall \/ TFReaderOpen \/ TFReaderObs \/ TPolicyOverlap
-  \/ TCloseCall \/ TUnlock \/ TCloseReturn \/ TReopened \/ TStuck \/ TSecondOpen \/ TRecovered \/ TCrash
+  \/ TCloseCall \/ TLock \/ TUnlock \/ TCloseReturn \/ TReopened \/ TStuck \/ TSecondOpen \/ TRecovered \/ TCrash
 
 TraceSpec == TraceInit /\ [][TraceNext]_tvars
 
